@@ -101,10 +101,12 @@ func (h accountsResourceHandler) ResolveFilter(opts common.ResourceQuery[any], o
 		}
 
 		// an account that never held the asset has no balance row: the test must then
-		// be false, not NULL, for a `$not` to select the account (see metadataOrEmpty)
+		// be false, not NULL, for a `$not` to select the account (see metadataOrEmpty).
+		// Without an asset there is one balance row per asset the account holds: the
+		// test holds when it holds for one of them (the subquery must yield one row)
 		return "coalesce((" + h.store.db.NewSelect().
 			TableExpr("(?) balance", selectBalance).
-			ColumnExpr(fmt.Sprintf("balance %s ?", common.ConvertOperatorToSQL(operator)), value).
+			ColumnExpr(fmt.Sprintf("bool_or(balance %s ?)", common.ConvertOperatorToSQL(operator)), value).
 			String() + "), false)", nil, nil
 	case property == "metadata":
 		return "metadata -> ? is not null", []any{value}, nil
